@@ -1,6 +1,7 @@
 use crate::core::*;
 
 pub mod c06;
+pub mod c07;
 pub mod c08;
 pub mod c09;
 pub mod c10;
@@ -22,6 +23,7 @@ pub fn dispatch(args: &Args, rep: &mut Rep) -> bool {
         "C03" => model::run(args, rep),
         "C04" | "C05" => matchp::run(args, rep),
         "C06" => c06::run(args, rep),
+        "C07" => c07::run(args, rep),
         "C08" => c08::run(args, rep),
         "C09" => c09::run(args, rep),
         "C10" => c10::run(args, rep),
